@@ -90,13 +90,185 @@ fn long_stream(input: &[u8], cfg: &Cfg) -> (usize, bool, usize, usize) {
     (n, clean, it.get_ref().max_request, growth)
 }
 
+/// A source that delivers its data in stages: when a stage is used up it answers with a stall (Ok(0), or an I/O
+/// error) until the harness calls `resume()`, then goes on with the next stage (a growing file, a socket).
+struct Staged {
+    stages: Vec<Vec<u8>>,
+    stage: usize,
+    pos: usize,
+    fail_with_error: bool,
+    stalled: bool,
+}
+
+impl Staged {
+    fn resume(&mut self) {
+        if self.stalled {
+            self.stalled = false;
+            self.stage += 1;
+            self.pos = 0;
+        }
+    }
+}
+
+impl std::io::Read for Staged {
+    fn read(&mut self, buf: &mut [u8]) -> std::io::Result<usize> {
+        if buf.is_empty() {
+            return Ok(0);
+        }
+        if self.stage >= self.stages.len() {
+            return Ok(0);
+        }
+        let st = &self.stages[self.stage];
+        if self.pos >= st.len() {
+            if self.stage + 1 >= self.stages.len() {
+                return Ok(0);
+            }
+            self.stalled = true;
+            return if self.fail_with_error { Err(std::io::Error::new(std::io::ErrorKind::Other, "injected-stall")) } else { Ok(0) };
+        }
+        let n = (st.len() - self.pos).min(buf.len());
+        buf[..n].copy_from_slice(&st[self.pos..self.pos + n]);
+        self.pos += n;
+        Ok(n)
+    }
+}
+
+/// The limit stays in force across errors, failed and successful recoveries and source stalls.
+fn histories(ctx: &mut Ctx) {
+    let firsts: Vec<(&str, Vec<u8>)> = vec![
+        ("junk only", vec![]),
+        ("B then junk", vec![0x88, 0x82, 1, 2]),
+        ("Root(unknown)[U] then junk", vec![0x81, 0xff, 0x82, 0x81, 7]),
+        ("Root(known size)[U] then junk", vec![0x81, 0x83, 0x82, 0x81, 7]),
+    ];
+    let junks: Vec<Vec<u8>> = vec![vec![], vec![0x00], vec![0x00, 0x02, 0x05]];
+    let mut k = 0u64;
+    for (fname, first) in &firsts {
+        for junk in &junks {
+            for fail_with_error in [false, true] {
+                for (el_id, el_name) in [(ID_B, "B"), (ID_S, "S"), (0xf2u64, "unknown-id")] {
+                    for s in [1001u64, 1 << 26, 1 << 40] {
+                        for lead in [0usize, 2] {
+                            for (lim, m) in [(MaxSize::Limit(5), 5usize), (MaxSize::Limit(1000), 1000)] {
+                                for cap in [None, Some(16usize)] {
+                                    for eof_end in [true, false] {
+                                        let mine = ctx.mine(k);
+                                        k += 1;
+                                        if !mine {
+                                            continue;
+                                        }
+                                        let mut st1 = first.clone();
+                                        st1.extend_from_slice(junk);
+                                        let mut st2: Vec<u8> = vec![0x00; lead];
+                                        let el_start_in_2 = st2.len();
+                                        st2.extend(id_bytes(el_id));
+                                        st2.extend(vint_encode(s, 8).unwrap());
+                                        st2.extend_from_slice(&[0x41; 4]);
+                                        let allow = if el_id == 0xf2 { crate::obs::ALLOW_IDS } else { 0 };
+                                        let cfg = Cfg { allow, buffered: vec![], cap, max_size: lim, eof_end };
+                                        let d = || format!("history: stage 1 = {} + junk {} ; stall = {} ; stage 2 = {} junk bytes + {} declaring S={} ; {}", fname, hex(junk), if fail_with_error { "read error" } else { "Ok(0)" }, lead, el_name, s, cfg.short());
+                                        if !ctx.enter(&d) {
+                                            continue;
+                                        }
+                                        ctx.nontrivial();
+                                        ctx.count("histories_with_recovery_and_stalls", 1);
+                                        let capn = cap.unwrap_or(65536).max(16);
+                                        let bound = 8 * m.max(capn) + (64 << 10);
+                                        let el_abs = st1.len() + el_start_in_2;
+                                        let mk = alloc::mark();
+                                        let src = Staged { stages: vec![st1.clone(), st2.clone()], stage: 0, pos: 0, fail_with_error, stalled: false };
+                                        let mut it: TagIterator<Staged, V> = make_iter(src, &cfg);
+                                        let mut log: Vec<String> = Vec::new();
+                                        let mut failed_recoveries = 0;
+                                        let mut size_error = false;
+                                        let mut emitted_el = false;
+                                        let mut panic: Option<String> = None;
+                                        for _ in 0..24 {
+                                            ctx.transitions += 1;
+                                            match crate::obs::step_next(&mut it) {
+                                                Err(p) => {
+                                                    panic = Some(p);
+                                                    break;
+                                                }
+                                                Ok(None) => {
+                                                    log.push("None".into());
+                                                    if it.get_ref().stalled {
+                                                        it.get_mut().resume();
+                                                    } else if it.get_ref().stage + 1 >= it.get_ref().stages.len() {
+                                                        break;
+                                                    }
+                                                }
+                                                Ok(Some(Ok((item, off)))) => {
+                                                    if off == el_abs && item.id() == el_id && !item.is_end() {
+                                                        emitted_el = true;
+                                                    }
+                                                    log.push(format!("{}@{}", item.short(), off));
+                                                }
+                                                Ok(Some(Err(e))) => {
+                                                    log.push(format!("Err({})", e.short()));
+                                                    if let NErr::InvalidTagSize { pos, id, size } = &e {
+                                                        if *pos == el_abs && *id == el_id && *size as u64 == s {
+                                                            size_error = true;
+                                                        }
+                                                        break;
+                                                    }
+                                                    ctx.transitions += 1;
+                                                    match std::panic::catch_unwind(std::panic::AssertUnwindSafe(|| it.try_recover())) {
+                                                        Err(p) => {
+                                                            panic = Some(crate::obs::panic_msg(p));
+                                                            break;
+                                                        }
+                                                        Ok(Ok(())) => log.push("recover:Ok".into()),
+                                                        Ok(Err(e)) => {
+                                                            failed_recoveries += 1;
+                                                            log.push(format!("recover:Err({})", crate::obs::norm_err(&e).short()));
+                                                            if it.get_ref().stalled {
+                                                                it.get_mut().resume();
+                                                            } else {
+                                                                break;
+                                                            }
+                                                        }
+                                                    }
+                                                }
+                                            }
+                                        }
+                                        let growth = alloc::peak_since(mk);
+                                        if failed_recoveries > 0 {
+                                            ctx.count("histories_with_a_failed_recovery_before_the_oversized_element", 1);
+                                        }
+                                        ctx.outcome(&(size_error, failed_recoveries, log.len()));
+                                        if let Some(p) = panic {
+                                            ctx.violation("history/panic", &d, &format!("{} | calls: {}", p, log.join(" ")));
+                                        } else if growth > bound {
+                                            ctx.violation("history/allocation-exceeds-bound", &d, &format!("peak heap growth {} > 8*max(M,capacity)+64KiB = {} (largest single request {}) | calls: {}", growth, bound, alloc::max_request(), log.join(" ")));
+                                        } else if emitted_el {
+                                            ctx.violation("history/over-limit-element-emitted", &d, &format!("calls: {}", log.join(" ")));
+                                        } else if size_error {
+                                            ctx.count("histories_ending_in_the_size_error", 1);
+                                            if failed_recoveries > 0 {
+                                                ctx.count("size_error_after_a_failed_recovery", 1);
+                                            }
+                                        }
+                                        ctx.validated += 1;
+                                        ctx.leave();
+                                    }
+                                }
+                            }
+                        }
+                    }
+                }
+            }
+        }
+    }
+}
+
 pub fn run(ctx: &mut Ctx) {
     alloc::REFUSE_ABOVE.store(256 << 20, std::sync::atomic::Ordering::Relaxed);
     let quick = ctx.quick();
-    ctx.meta("rule", "cases: header-only streams: an element of every type (U, I, F, S, B, master, global Void, unknown id) at root, inside a small known-size master, inside a known-size master with room, inside an unknown-size master, declaring S in {0,1,M-1,M,M+1,2M,2^20,2^30,2^40,2^56-2} in every VINT width that can hold it, payload absent / 3 bytes present / followed by a 200 KB tail, x limit M in {5,16,1000,2^20,default} x capacity {16,4096,default} x 8 tolerance subsets; a counting global allocator measures peak heap growth around the whole iteration. Oracle: S > M => a CorruptedFileData error (the size error unless an earlier-ordered check fires) with nothing emitted for the element, peak growth <= growth of the same stream with S:=0 plus 4 KiB (independent of S), bytes pulled from the source <= buffer capacity + header; S <= M with the payload missing => growth <= 8*max(S,capacity)+64 KiB; never a panic. Long streams of 10-30 thousand elements of varying small sizes: the largest slice ever offered to read() <= 4*max(capacity, largest payload). A single allocation request above 256 MiB aborts the worker and is reported. Non-trivial: S > capacity.");
+    ctx.meta("rule", "cases: header-only streams: an element of every type (U, I, F, S, B, master, global Void, unknown id) at root, inside a small known-size master, inside a known-size master with room, inside an unknown-size master, declaring S in {0,1,M-1,M,M+1,2M,2^20,2^30,2^40,2^56-2} in every VINT width that can hold it, payload absent / 3 bytes present / followed by a 200 KB tail, x limit M in {5,16,1000,2^20,default} x capacity {16,4096,default} x 8 tolerance subsets; a counting global allocator measures peak heap growth around the whole iteration. Oracle: S > M => a CorruptedFileData error (the size error unless an earlier-ordered check fires) with nothing emitted for the element, peak growth <= growth of the same stream with S:=0 plus 4 KiB (independent of S), bytes pulled from the source <= buffer capacity + header; S <= M with the payload missing => growth <= 8*max(S,capacity)+64 KiB; never a panic. Long streams of 10-30 thousand elements of varying small sizes: the largest slice ever offered to read() <= 4*max(capacity, largest payload). Call histories over a source that delivers its data in two stages with a stall (Ok(0) or a read error) in between: stage 1 = nothing / an element / an open master, then junk; next() until the error, try_recover() (which fails at the end of the available data, or succeeds), resume, stage 2 = 0 or 2 junk bytes and an element declaring S in {1001, 2^26, 2^40} > M: peak growth <= 8*max(M,capacity)+64 KiB over the whole history, the element is never emitted. A single allocation request above 256 MiB aborts the worker and is reported. Non-trivial: S > capacity.");
     ctx.meta("bounds", "sizes, widths, limits, capacities and contexts as listed; within-limit sizes above 2^20 are not executed (they would really allocate)");
     ctx.meta("assumptions", "no buffered masters (the statement excludes them) || allocator accounting counts requested bytes, not allocator overhead");
-    for c in ["over_limit_cases", "within_limit_payload_missing", "over_limit_with_tail", "long_streams"] {
+    for c in ["over_limit_cases", "within_limit_payload_missing", "over_limit_with_tail", "long_streams", "histories_with_recovery_and_stalls", "histories_with_a_failed_recovery_before_the_oversized_element", "histories_ending_in_the_size_error", "size_error_after_a_failed_recovery"] {
         ctx.expect_nonzero(c);
     }
     let ids: Vec<(u64, &str)> = vec![(ID_U, "U"), (ID_I, "I"), (ID_F, "F"), (ID_S, "S"), (ID_B, "B"), (ID_M, "M(master)"), (ID_VOID, "Void"), (0xf2, "unknown-id")];
@@ -149,6 +321,7 @@ pub fn run(ctx: &mut Ctx) {
             }
         }
     }
+    histories(ctx);
     let mut case_no = 0u64;
     for (lim, m) in &limits {
         let mut sizes: Vec<u64> = vec![0, 1, m - 1, *m, m + 1, 2 * m, 1 << 20, 1 << 30, 1 << 40, (1 << 56) - 2];
